@@ -7,7 +7,8 @@ From Verif Require Import Common.Base Common.Tactics JsScope.Model JsScope.Spec 
 
 (* what a scope will have declared when it is complete: lexical names, and var-like names
    (parameters, var, function) *)
-Record promise := mkPr { plex : list Z ; pvar : list Z }.
+(* pargs: the scope is past its mark (MarkFuncArgs / MarkForStmt / catch parameter): bodies of functions, loops, catch *)
+Record promise := mkPr { plex : list Z ; pvar : list Z ; pargs : bool }.
 Definition pnames (pr : promise) : list Z := pvar pr ++ plex pr.
 
 Definition zframe := (frame * promise)%type.
@@ -17,7 +18,15 @@ Fixpoint pend_names (l : list uent) : list Z :=
   match l with
   | [] => []
   | UPend x :: t => x :: pend_names t
-  | UPass _ _ :: t => pend_names t
+  | UPass _ _ :: t | UArg _ :: t => pend_names t
+  end.
+
+(* the names used in the parameter list / loop head / catch parameter and still unresolved *)
+Fixpoint arg_names (l : list uent) : list Z :=
+  match l with
+  | [] => []
+  | UArg x :: t => x :: arg_names t
+  | UPend _ :: t | UPass _ _ :: t => arg_names t
   end.
 
 (* a declaration of x in function scope fs passed through the block on top of z: no block in between
@@ -56,6 +65,7 @@ Definition final (e : env) (l : label) : target :=
   match l with
   | LDecl s x => TBind s false x
   | LPend s x => lookup (drop_to s e) x
+  | LArg s x => lookup (tl (drop_to s e)) x     (* resolved outside scope s *)
   end.
 
 Record frame_ok (fr : frame) (pr : promise) (below : list zframe) : Prop := {
@@ -65,12 +75,16 @@ Record frame_ok (fr : frame) (pr : promise) (below : list zframe) : Prop := {
   K_pass : forall y fs, In (UPass y fs) (fund fr) -> fisfunc fr = false /\ pass_ok y fs ((fr, pr) :: below) ;
   K_dnodup : NoDup (dnames fr) ;
   K_pnodup : NoDup (pend_names (fund fr)) ;
-  (* the uses made in the parameter list (the first NumArgUses entries) are never declared in this scope *)
+  (* the first NumArgUses entries hold the uses made in the parameter list, and only they *)
   K_narg : (fnarg fr <= length (fund fr))%nat /\
-           forall y, In (UPend y) (firstn (fnarg fr) (fund fr)) -> ~ In y (pnames pr) ;
+           forall y, ~ In (UPend y) (firstn (fnarg fr) (fund fr)) ;
+  K_arg : forall y, In (UArg y) (fund fr) -> In (UArg y) (firstn (fnarg fr) (fund fr)) ;
+  K_anodup : NoDup (arg_names (fund fr)) ;
   K_fid : forall g, In g below -> (fid (fst g) < fid fr)%nat ;
   (* only block scopes are loop scopes *)
-  K_for : fisfunc fr = true -> fnfor fr = O
+  K_for : fisfunc fr = true -> fnfor fr = O ;
+  (* no use is frozen before the mark *)
+  K_mark : pargs pr = false -> fnarg fr = O
 }.
 
 Fixpoint frames_ok (z : list zframe) : Prop :=
@@ -84,7 +98,9 @@ Record AInv (a : astate) (z : list zframe) : Prop := {
   A_frames : frames_ok z ;
   A_next : forall fp, In fp z -> (fid (fst fp) < anext a)%nat ;
   A_log : forall s x, In (LPend s x) (alog a) ->
-          exists fp, In fp z /\ fid (fst fp) = s /\ In (UPend x) (fund (fst fp))
+          exists fp, In fp z /\ fid (fst fp) = s /\ In (UPend x) (fund (fst fp)) ;
+  A_logarg : forall s x, In (LArg s x) (alog a) ->
+          exists fp, In fp z /\ fid (fst fp) = s /\ In (UArg x) (fund (fst fp))
 }.
 
 (* the part of a stack the predicates above depend on *)
@@ -125,12 +141,12 @@ Qed.
 
 Lemma frame_ok_shape fr pr below below' : shape below = shape below' -> frame_ok fr pr below -> frame_ok fr pr below'.
 Proof.
-  intros Hs [K1 K2 K3 K4 K5 K6 K7 K8 K9]. constructor; try assumption.
+  intros Hs [K1 K2 K3 K4 K5 K6 K7 K8 K9 K10 K11 K12]. constructor; try assumption.
   - intros y fs Hy. destruct (K4 y fs Hy) as [Hf Hp]. split; [exact Hf|].
     apply (pass_ok_shape y fs ((fr, pr) :: below)); [cbn; f_equal; exact Hs|exact Hp].
   - intros g Hg. apply shape_fids in Hs.
     assert (Hin : In (fid (fst g)) (map (fun fp => fid (fst fp)) below')) by (apply in_map_iff; exists g; split; [reflexivity|exact Hg]).
-    rewrite <- Hs in Hin. apply in_map_iff in Hin. destruct Hin as (g0 & E & Hg0). rewrite <- E. apply K8. exact Hg0.
+    rewrite <- Hs in Hin. apply in_map_iff in Hin. destruct Hin as (g0 & E & Hg0). rewrite <- E. apply K10. exact Hg0.
 Qed.
 
 (* ---- membership --------------------------------------------------------------------------------------- *)
@@ -200,83 +216,119 @@ Proof.
   - exfalso. apply (a_find_decl_none _ _ E). exact H.
 Qed.
 
-Lemma a_find_und_some fr x e : a_find_und fr x = Some e -> In e (fund fr) /\ uname e = x.
-Proof. unfold a_find_und. intros H. apply find_some in H. destruct H as [H1 H2]. apply Z.eqb_eq in H2. split; assumption. Qed.
+Lemma a_find_und_some fr x e : a_find_und fr x = Some e -> In e (fund fr) /\ uname e = x /\ is_uarg e = false.
+Proof.
+  unfold a_find_und. intros H. apply find_some in H. destruct H as [H1 H2]. split; [exact H1|].
+  destruct e; cbn in *; try discriminate; (split; [apply Z.eqb_eq; exact H2|reflexivity]).
+Qed.
 
-Lemma a_find_und_none fr x : a_find_und fr x = None -> forall e, In e (fund fr) -> uname e <> x.
-Proof. unfold a_find_und. intros H e He E. pose proof (find_none _ _ H e He) as Hn. cbn in Hn. apply Z.eqb_neq in Hn. contradiction. Qed.
+Lemma a_find_und_none fr x : a_find_und fr x = None -> forall e, In e (fund fr) -> is_uarg e = false -> uname e <> x.
+Proof.
+  unfold a_find_und. intros H e He Ha E. pose proof (find_none _ _ H e He) as Hn.
+  destruct e; cbn in *; try discriminate; apply Z.eqb_neq in Hn; contradiction.
+Qed.
 
 Lemma in_pend_names y l : In y (pend_names l) <-> In (UPend y) l.
 Proof.
-  induction l as [|[x|x fs] t IH]; cbn; [tauto| |].
+  induction l as [|[x|x fs|x] t IH]; cbn; [tauto| | |].
   - rewrite IH. split; intros [H|H]; [left; congruence|right; exact H|left; congruence|right; exact H].
+  - rewrite IH. split; [intros H; right; exact H|intros [H|H]; [discriminate|exact H]].
   - rewrite IH. split; [intros H; right; exact H|intros [H|H]; [discriminate|exact H]].
 Qed.
 
+Lemma in_arg_names y l : In y (arg_names l) <-> In (UArg y) l.
+Proof.
+  induction l as [|[x|x fs|x] t IH]; cbn; [tauto| | |].
+  - rewrite IH. split; [intros H; right; exact H|intros [H|H]; [discriminate|exact H]].
+  - rewrite IH. split; [intros H; right; exact H|intros [H|H]; [discriminate|exact H]].
+  - rewrite IH. split; intros [H|H]; [left; congruence|right; exact H|left; congruence|right; exact H].
+Qed.
+
 Lemma pend_names_app l1 l2 : pend_names (l1 ++ l2) = pend_names l1 ++ pend_names l2.
-Proof. induction l1 as [|[x|x fs] t IH]; cbn; [reflexivity| |]; rewrite IH; reflexivity. Qed.
+Proof. induction l1 as [|[x|x fs|x] t IH]; cbn; [reflexivity| | |]; rewrite IH; reflexivity. Qed.
+
+Lemma arg_names_app l1 l2 : arg_names (l1 ++ l2) = arg_names l1 ++ arg_names l2.
+Proof. induction l1 as [|[x|x fs|x] t IH]; cbn; [reflexivity| | |]; rewrite IH; reflexivity. Qed.
+
+Lemma in_firstn_app {A} (l l2 : list A) n x : (n <= length l)%nat -> In x (firstn n l) -> In x (firstn n (l ++ l2)).
+Proof.
+  intros Hn H. rewrite firstn_app. replace (n - length l)%nat with O by lia. cbn [firstn]. rewrite app_nil_r. exact H.
+Qed.
 
 (* ---- Use ------------------------------------------------------------------------------------------------- *)
 Lemma L_use a fr pr rest x :
   AInv a ((fr, pr) :: rest) ->
   exists a' fr' L,
     a_use a x = ARun a' /\ AInv a' ((fr', pr) :: rest) /\
-    fid fr' = fid fr /\ fisfunc fr' = fisfunc fr /\ fdecl fr' = fdecl fr /\
+    fid fr' = fid fr /\ fisfunc fr' = fisfunc fr /\ fdecl fr' = fdecl fr /\ fnarg fr' = fnarg fr /\
     alog a' = L :: alog a /\ anext a' = anext a /\
     final (env_of ((fr, pr) :: rest)) L = lookup (env_of ((fr, pr) :: rest)) x /\
     (forall e, In e (fund fr') -> In e (fund fr) \/ e = UPend x).
 Proof.
-  intros [As Af An Al]. cbn [map fst] in As. destruct Af as [Kf Krest].
+  intros [As Af An Al Aa]. cbn [map fst] in As. destruct Af as [Kf Krest].
   unfold a_use. rewrite As.
   destruct (a_find_decl fr x) as [[y k]|] eqn:Ed.
   - (* declared here *)
     destruct (a_find_decl_some _ _ _ _ Ed) as [-> Hin]. destruct (K_decl _ _ _ Kf x k Hin) as [Hp _].
     exists (mkA (fr :: map fst rest) (anext a) (LDecl (fid fr) x :: alog a)), fr, (LDecl (fid fr) x).
     split; [reflexivity|]. split.
-    { constructor; [reflexivity|split; assumption|exact An|].
-      intros s y [E|H]; [discriminate|]. apply Al. exact H. }
-    split; [reflexivity|]. split; [reflexivity|]. split; [reflexivity|]. split; [reflexivity|]. split; [reflexivity|].
+    { constructor; [reflexivity|split; assumption|exact An| |].
+      - intros s y [E|H]; [discriminate|]. apply Al. exact H.
+      - intros s y [E|H]; [discriminate|]. apply Aa. exact H. }
+    split; [reflexivity|]. split; [reflexivity|]. split; [reflexivity|]. split; [reflexivity|]. split; [reflexivity|]. split; [reflexivity|].
     split; [cbn [final env_of map fst snd]; symmetry; apply lookup_head; exact Hp|intros e He; left; exact He].
-  - destruct (a_find_und fr x) as [[y|y fs]|] eqn:Eu.
+  - destruct (a_find_und fr x) as [[y|y fs|y]|] eqn:Eu.
     + (* used before here *)
-      destruct (a_find_und_some _ _ _ Eu) as [Hin Hn]. cbn in Hn. subst y.
+      destruct (a_find_und_some _ _ _ Eu) as (Hin & Hn & _). cbn in Hn. subst y.
       exists (mkA (fr :: map fst rest) (anext a) (LPend (fid fr) x :: alog a)), fr, (LPend (fid fr) x).
       split; [reflexivity|]. split.
-      { constructor; [reflexivity|split; assumption|exact An|].
-        intros s y [E|H]; [|apply Al; exact H]. inversion E; subst. exists (fr, pr). split; [left; reflexivity|]. split; [reflexivity|exact Hin]. }
-      split; [reflexivity|]. split; [reflexivity|]. split; [reflexivity|]. split; [reflexivity|]. split; [reflexivity|].
+      { constructor; [reflexivity|split; assumption|exact An| |].
+        - intros s y [E|H]; [|apply Al; exact H]. inversion E; subst. exists (fr, pr). split; [left; reflexivity|]. split; [reflexivity|exact Hin].
+        - intros s y [E|H]; [discriminate|]. apply Aa. exact H. }
+      split; [reflexivity|]. split; [reflexivity|]. split; [reflexivity|]. split; [reflexivity|]. split; [reflexivity|]. split; [reflexivity|].
       split; [cbn [final env_of map fst snd]; rewrite drop_to_head; reflexivity|intros e He; left; exact He].
     + (* a declaration passed through this block *)
-      destruct (a_find_und_some _ _ _ Eu) as [Hin Hn]. cbn in Hn. subst y.
+      destruct (a_find_und_some _ _ _ Eu) as (Hin & Hn & _). cbn in Hn. subst y.
       destruct (K_pass _ _ _ Kf x fs Hin) as [_ Hp].
       exists (mkA (fr :: map fst rest) (anext a) (LDecl fs x :: alog a)), fr, (LDecl fs x).
       split; [reflexivity|]. split.
-      { constructor; [reflexivity|split; assumption|exact An|].
-        intros s y [E|H]; [discriminate|]. apply Al. exact H. }
-      split; [reflexivity|]. split; [reflexivity|]. split; [reflexivity|]. split; [reflexivity|]. split; [reflexivity|].
+      { constructor; [reflexivity|split; assumption|exact An| |].
+        - intros s y [E|H]; [discriminate|]. apply Al. exact H.
+        - intros s y [E|H]; [discriminate|]. apply Aa. exact H. }
+      split; [reflexivity|]. split; [reflexivity|]. split; [reflexivity|]. split; [reflexivity|]. split; [reflexivity|]. split; [reflexivity|].
       split; [cbn [final]; symmetry; apply lookup_pass; exact Hp|intros e He; left; exact He].
-    + (* first use *)
+    + (* not returned by the search *)
+      destruct (a_find_und_some _ _ _ Eu) as (_ & _ & Hc). discriminate.
+    + (* first use (the uses made in the parameter list do not count) *)
       set (fr' := set_fund fr (fund fr ++ [UPend x])).
       exists (mkA (fr' :: map fst rest) (anext a) (LPend (fid fr) x :: alog a)), fr', (LPend (fid fr) x).
       split; [reflexivity|]. split.
-      { constructor; [reflexivity| | |].
-        - split; [|exact Krest]. destruct Kf as [K1 K2 K3 K4 K5 K6 K7 K8 K9]. constructor; try assumption.
+      { constructor; [reflexivity| | | |].
+        - split; [|exact Krest]. destruct Kf as [K1 K2 K3 K4 K5 K6 K7 K8 K9 K10 K11 K12]. destruct K7 as [K7a K7b].
+          constructor; try assumption.
           + intros y Hy. cbn [fund fr' set_fund] in Hy. apply in_app_last in Hy. destruct Hy as [Hy|Hy]; [apply K3; exact Hy|].
             inversion Hy; subst. apply a_find_decl_none. exact Ed.
           + intros y fs Hy. cbn [fund fr' set_fund] in Hy. apply in_app_last in Hy. destruct Hy as [Hy|Hy]; [|discriminate].
             exact (K4 y fs Hy).
           + cbn [fund fr' set_fund]. rewrite pend_names_app. cbn. apply nodup_app_last; [exact K6|].
-            intros Hin. apply in_pend_names in Hin. apply (a_find_und_none _ _ Eu _ Hin). reflexivity.
-          + cbn [fund fnarg fr' set_fund]. destruct K7 as [K7a K7b]. split; [rewrite app_length; lia|].
+            intros Hin. apply in_pend_names in Hin. apply (a_find_und_none _ _ Eu _ Hin); reflexivity.
+          + cbn [fund fnarg fr' set_fund]. split; [rewrite app_length; lia|].
             rewrite firstn_app. replace (fnarg fr - length (fund fr))%nat with O by lia. cbn [firstn]. rewrite app_nil_r. exact K7b.
+          + intros y Hy. cbn [fund fnarg fr' set_fund] in *. apply in_app_last in Hy. destruct Hy as [Hy|Hy]; [|discriminate].
+            apply in_firstn_app; [exact K7a|apply K8; exact Hy].
+          + cbn [fund fr' set_fund]. rewrite arg_names_app. cbn. rewrite app_nil_r. exact K9.
         - intros fp [<-|H]; [apply (An (fr, pr)); left; reflexivity|apply An; right; exact H].
         - intros s y [E|H].
           + inversion E; subst. exists (fr', pr). split; [left; reflexivity|]. split; [reflexivity|].
             cbn. apply in_app_last. right. reflexivity.
           + destruct (Al s y H) as ([g pg] & Hg & Hs & Hu). destruct Hg as [Eg|Hg].
             * injection Eg as E1 E2. subst g pg. exists (fr', pr). split; [left; reflexivity|]. split; [exact Hs|]. cbn. apply in_app_last. left. exact Hu.
-            * exists (g, pg). split; [right; exact Hg|]. split; assumption. }
-      split; [reflexivity|]. split; [reflexivity|]. split; [reflexivity|]. split; [reflexivity|]. split; [reflexivity|].
+            * exists (g, pg). split; [right; exact Hg|]. split; assumption.
+        - intros s y [E|H]; [discriminate|].
+          destruct (Aa s y H) as ([g pg] & Hg & Hs & Hu). destruct Hg as [Eg|Hg].
+          * injection Eg as E1 E2. subst g pg. exists (fr', pr). split; [left; reflexivity|]. split; [exact Hs|]. cbn. apply in_app_last. left. exact Hu.
+          * exists (g, pg). split; [right; exact Hg|]. split; assumption. }
+      split; [reflexivity|]. split; [reflexivity|]. split; [reflexivity|]. split; [reflexivity|]. split; [reflexivity|]. split; [reflexivity|].
       split; [cbn [final env_of map fst snd]; rewrite drop_to_head; reflexivity|].
       intros e He. cbn [fund fr' set_fund] in He. apply in_app_last in He. exact He.
 Qed.
@@ -287,12 +339,12 @@ Lemma L_enter a z f pr :
   exists a', a_enter a f = ARun a' /\
     AInv a' ((mkF (anext a) f [] [] O O, pr) :: z) /\ alog a' = alog a /\ anext a' = S (anext a).
 Proof.
-  intros [As Af An Al] Hdisj.
+  intros [As Af An Al Aa] Hdisj.
   exists (mkA (mkF (anext a) f [] [] O O :: astack a) (S (anext a)) (alog a)).
   split; [reflexivity|]. split; [|split; reflexivity].
   constructor.
   - cbn. rewrite As. reflexivity.
-  - split; [|exact Af]. constructor; cbn [fdecl fund fnarg fid dnames map pend_names].
+  - split; [|exact Af]. constructor; cbn [fdecl fund fnarg fid dnames map pend_names arg_names firstn].
     + intros y k [].
     + exact Hdisj.
     + intros y [].
@@ -300,52 +352,120 @@ Proof.
     + constructor.
     + constructor.
     + split; [lia|intros y []].
+    + intros y [].
+    + constructor.
     + intros g Hg. apply An. exact Hg.
+    + intros _. reflexivity.
     + intros _. reflexivity.
   - intros fp [<-|H]; cbn; [lia|]. specialize (An fp H). lia.
   - intros s x H. destruct (Al s x H) as (fp & H1 & H2 & H3). exists fp. split; [right; exact H1|]. split; assumption.
+  - intros s x H. destruct (Aa s x H) as (fp & H1 & H2 & H3). exists fp. split; [right; exact H1|]. split; assumption.
 Qed.
 
-(* ---- MarkFuncArgs: every use made so far in this scope is of a name the scope will not declare -------------- *)
-Lemma L_mark a fr pr rest :
-  AInv a ((fr, pr) :: rest) -> (forall y, In (UPend y) (fund fr) -> ~ In y (pnames pr)) ->
-  exists a' fr',
-    a_mark_args a = ARun a' /\ AInv a' ((fr', pr) :: rest) /\
-    fid fr' = fid fr /\ fisfunc fr' = fisfunc fr /\ fdecl fr' = fdecl fr /\ fund fr' = fund fr /\
-    alog a' = alog a /\ anext a' = anext a.
+(* ---- the marks: every use made so far in this scope is frozen ------------------------------------------------- *)
+Lemma to_args_in e l : In e (to_args l) -> (exists y, e = UArg y /\ (In (UPend y) l \/ In (UArg y) l)) \/ (is_uarg e = false /\ In e l /\ forall y, e <> UPend y).
 Proof.
-  intros [As Af An Al] Hf. destruct Af as [Kf Krest]. unfold a_mark_args. rewrite As. cbn [map fst].
-  set (fr' := mkF (fid fr) (fisfunc fr) (fdecl fr) (fund fr) (length (fund fr)) (fnfor fr)).
-  exists (mkA (fr' :: map fst rest) (anext a) (alog a)), fr'. split; [reflexivity|]. split.
-  { constructor; [reflexivity| | |].
-    - split; [|exact Krest]. destruct Kf as [K1 K2 K3 K4 K5 K6 K7 K8 K9]. constructor; try assumption.
-      cbn [fnarg fund fr']. split; [lia|]. rewrite firstn_all. exact Hf.
-    - intros fp [<-|H]; [apply (An (fr, pr)); left; reflexivity|apply An; right; exact H].
-    - intros s y H. destruct (Al s y H) as ([g pg] & Hg & Hs & Hu). destruct Hg as [Eg|Hg].
-      + injection Eg as E1 E2. subst g pg. exists (fr', pr). split; [left; reflexivity|]. split; [exact Hs|exact Hu].
-      + exists (g, pg). split; [right; exact Hg|]. split; assumption. }
-  repeat split; reflexivity.
+  unfold to_args. intros H. apply in_map_iff in H. destruct H as (e0 & E & H0). destruct e0 as [y|y fs|y]; subst e.
+  - left. exists y. split; [reflexivity|left; exact H0].
+  - right. split; [reflexivity|]. split; [exact H0|discriminate].
+  - left. exists y. split; [reflexivity|right; exact H0].
 Qed.
 
-(* ---- MarkForStmt (a block scope): as MarkFuncArgs, and the declarations made so far are the loop head's ----- *)
-Lemma L_mark_for a fr pr rest :
-  AInv a ((fr, pr) :: rest) -> fisfunc fr = false -> (forall y, In (UPend y) (fund fr) -> ~ In y (pnames pr)) ->
-  exists a' fr',
-    a_mark_for a = ARun a' /\ AInv a' ((fr', pr) :: rest) /\
-    fid fr' = fid fr /\ fisfunc fr' = fisfunc fr /\ fdecl fr' = fdecl fr /\ fund fr' = fund fr /\
-    fnfor fr' = length (fdecl fr) /\
-    alog a' = alog a /\ anext a' = anext a.
+Lemma to_args_pend l : pend_names (to_args l) = [].
+Proof. induction l as [|[x|x fs|x] t IH]; cbn; try exact IH; reflexivity. Qed.
+
+Lemma to_args_names l : existsb is_uarg l = false -> arg_names (to_args l) = pend_names l.
 Proof.
-  intros [As Af An Al] Hblock Hf. destruct Af as [Kf Krest]. unfold a_mark_for. rewrite As. cbn [map fst].
-  set (fr' := mkF (fid fr) (fisfunc fr) (fdecl fr) (fund fr) (length (fund fr)) (length (fdecl fr))).
-  exists (mkA (fr' :: map fst rest) (anext a) (alog a)), fr'. split; [reflexivity|]. split.
-  { constructor; [reflexivity| | |].
-    - split; [|exact Krest]. destruct Kf as [K1 K2 K3 K4 K5 K6 K7 K8 K9]. constructor; try assumption.
-      + cbn [fnarg fund fr']. split; [lia|]. rewrite firstn_all. exact Hf.
-      + cbn [fisfunc fr']. intros E. congruence.
-    - intros fp [<-|H]; [apply (An (fr, pr)); left; reflexivity|apply An; right; exact H].
-    - intros s y H. destruct (Al s y H) as ([g pg] & Hg & Hs & Hu). destruct Hg as [Eg|Hg].
-      + injection Eg as E1 E2. subst g pg. exists (fr', pr). split; [left; reflexivity|]. split; [exact Hs|exact Hu].
-      + exists (g, pg). split; [right; exact Hg|]. split; assumption. }
-  repeat split; reflexivity.
+  induction l as [|[x|x fs|x] t IH]; cbn; intros H; try discriminate; [reflexivity| |].
+  - f_equal. apply IH. exact H.
+  - apply IH. exact H.
 Qed.
+
+Lemma firstn_to_args l : firstn (length l) (to_args l) = to_args l.
+Proof. rewrite <- (map_length (fun e => match e with UPend x => UArg x | _ => e end) l). apply firstn_all. Qed.
+
+Lemma no_uarg_fnarg fr pr below : frame_ok fr pr below -> fnarg fr = O -> existsb is_uarg (fund fr) = false.
+Proof.
+  intros K H0. destruct (existsb is_uarg (fund fr)) eqn:E; [|reflexivity]. exfalso.
+  apply existsb_exists in E. destruct E as ([y|y fs|y] & Hin & Hc); try discriminate.
+  pose proof (K_arg _ _ _ K y Hin) as H. rewrite H0 in H. destruct H.
+Qed.
+
+Lemma args_log_in s lb log : In lb (args_log s log) ->
+  (exists x, lb = LArg s x /\ (In (LPend s x) log \/ In (LArg s x) log)) \/ (In lb log /\ forall x, lb <> LPend s x).
+Proof.
+  unfold args_log. intros H. apply in_map_iff in H. destruct H as (l0 & E & H0). destruct l0 as [t x|t x|t x]; subst lb.
+  - right. split; [exact H0|discriminate].
+  - destruct (Nat.eqb_spec t s) as [->|Hne].
+    + left. exists x. split; [reflexivity|left; exact H0].
+    + right. split; [exact H0|]. intros y E. inversion E. contradiction.
+  - destruct (Nat.eq_dec t s) as [->|Hne].
+    + left. exists x. split; [reflexivity|right; exact H0].
+    + right. split; [exact H0|discriminate].
+Qed.
+
+Lemma L_mark_gen a fr pr pr' rest (nfor : frame -> nat) :
+  AInv a ((fr, pr) :: rest) -> pargs pr = false -> pargs pr' = true -> (fisfunc fr = true -> nfor fr = O) ->
+  (forall y, In (UPend y) (fund fr) -> ~ In y (pnames pr)) ->
+  (* the promise of the scope from the mark on *)
+  (forall y k, In (y, k) (fdecl fr) -> In y (pnames pr') /\ (ArgumentDecl < k -> In y (plex pr'))) ->
+  (forall y, In y (plex pr') -> ~ In y (pvar pr')) ->
+  (forall y fs, In (UPass y fs) (fund fr) -> ~ In y (pnames pr')) ->
+  exists a' fr',
+    a_mark a nfor = ARun a' /\ AInv a' ((fr', pr') :: rest) /\
+    fid fr' = fid fr /\ fisfunc fr' = fisfunc fr /\ fdecl fr' = fdecl fr /\ fund fr' = to_args (fund fr) /\
+    fnfor fr' = nfor fr /\
+    map (final (env_of ((fr', pr') :: rest))) (alog a') = map (final (env_of ((fr, pr) :: rest))) (alog a) /\
+    anext a' = anext a.
+Proof.
+  intros [As Af An Al Aa] Hpa Hpa' Hnf Hf Hd Hdisj Hpass. destruct Af as [Kf Krest]. unfold a_mark. rewrite As. cbn [map fst].
+  assert (H0 : fnarg fr = O) by (apply (K_mark _ _ _ Kf Hpa)).
+  rewrite (no_uarg_fnarg fr pr rest Kf H0).
+  set (fr' := mkF (fid fr) (fisfunc fr) (fdecl fr) (to_args (fund fr)) (length (fund fr)) (nfor fr)).
+  exists (mkA (fr' :: map fst rest) (anext a) (args_log (fid fr) (alog a))), fr'. split; [reflexivity|]. split.
+  { constructor; [reflexivity| | | |].
+    - split; [|exact Krest]. pose proof Kf as [K1 K2 K3 K4 K5 K6 K7 K8 K9 K10 K11 K12]. constructor; cbn [fund fnarg fnfor fisfunc fdecl fid fr']; try assumption.
+      + intros y Hy. apply to_args_in in Hy. destruct Hy as [(z0 & E & _)|(_ & _ & Hn)]; [discriminate|]. exfalso. apply (Hn y). reflexivity.
+      + intros y fs Hy. apply to_args_in in Hy. destruct Hy as [(z0 & E & _)|(_ & Hin & _)]; [discriminate|].
+        destruct (K4 y fs Hin) as [Hb Hp]. split; [exact Hb|]. cbn [pass_ok] in Hp. rewrite Hb in Hp.
+        cbn [pass_ok]. change (fisfunc fr') with (fisfunc fr). rewrite Hb. split; [apply (Hpass y fs Hin)|apply Hp].
+      + rewrite to_args_pend. constructor.
+      + split; [unfold to_args; rewrite map_length; lia|]. rewrite firstn_to_args. intros y Hy. apply to_args_in in Hy.
+        destruct Hy as [(z0 & E & _)|(_ & _ & Hn)]; [discriminate|]. apply (Hn y). reflexivity.
+      + intros y Hy. rewrite firstn_to_args. exact Hy.
+      + rewrite to_args_names by (apply (no_uarg_fnarg fr pr rest Kf H0)). exact K6.
+      + intros E. congruence.
+    - intros fp [<-|H]; [apply (An (fr, pr)); left; reflexivity|apply An; right; exact H].
+    - intros s y H. cbn [alog] in H. apply args_log_in in H. destruct H as [(x0 & E & _)|[H Hn]]; [discriminate|].
+      destruct (Al s y H) as ([g pg] & Hg & Hs & Hu). destruct Hg as [Eg|Hg].
+      + injection Eg as E1 E2. subst g pg. exfalso. apply (Hn y). cbn [fst] in Hs. rewrite <- Hs. reflexivity.
+      + exists (g, pg). split; [right; exact Hg|]. split; assumption.
+    - intros s y H. cbn [alog] in H. apply args_log_in in H. destruct H as [(x0 & E & [H|H])|[H _]].
+      + inversion E; subst. destruct (Al _ _ H) as ([g pg] & Hg & Hs & Hu). destruct Hg as [Eg|Hg].
+        * injection Eg as E1 E2. subst g pg. exists (fr', pr'). split; [left; reflexivity|]. split; [reflexivity|].
+          cbn [fund fr' fst]. unfold to_args. apply in_map_iff. exists (UPend x0). split; [reflexivity|exact Hu].
+        * exfalso. pose proof (K_fid _ _ _ Kf (g, pg) Hg) as Hlt. cbn [fst] in Hlt, Hs. lia.
+      + inversion E; subst. destruct (Aa _ _ H) as ([g pg] & Hg & Hs & Hu). destruct Hg as [Eg|Hg].
+        * injection Eg as E1 E2. subst g pg. exfalso. pose proof (K_arg _ _ _ Kf x0 Hu) as Hk. rewrite H0 in Hk. destruct Hk.
+        * exfalso. pose proof (K_fid _ _ _ Kf (g, pg) Hg) as Hlt. cbn [fst] in Hlt, Hs. lia.
+      + destruct (Aa s y H) as ([g pg] & Hg & Hs & Hu). destruct Hg as [Eg|Hg].
+        * injection Eg as E1 E2. subst g pg. exfalso. pose proof (K_arg _ _ _ Kf y Hu) as Hk. rewrite H0 in Hk. destruct Hk.
+        * exists (g, pg). split; [right; exact Hg|]. split; assumption. }
+  split; [reflexivity|]. split; [reflexivity|]. split; [reflexivity|]. split; [reflexivity|]. split; [reflexivity|].
+  split; [|reflexivity].
+  cbn [alog]. unfold args_log. rewrite map_map. apply map_ext_in. intros lb Hlb.
+  destruct lb as [t x|t x|t x]; [reflexivity| |].
+  - destruct (Nat.eqb_spec t (fid fr)) as [->|Hne].
+    + (* a pending use of this scope: the scope did not promise its name *)
+      destruct (Al _ _ Hlb) as ([g pg] & Hg & Hs & Hu). destruct Hg as [Eg|Hg].
+      * injection Eg as E1 E2. subst g pg. cbn [final env_of map fst snd fid fr']. rewrite !drop_to_head. cbn [tl].
+        symmetry. apply lookup_skip. apply Hf. exact Hu.
+      * exfalso. pose proof (K_fid _ _ _ Kf (g, pg) Hg) as Hlt. cbn [fst] in Hlt, Hs. lia.
+    + cbn [final env_of map fst snd fid fr']. rewrite !drop_to_skip by congruence. reflexivity.
+  - cbn [final env_of map fst snd fid fr']. destruct (Nat.eq_dec (fid fr) t) as [E|E].
+    + rewrite E, !drop_to_head. reflexivity.
+    + rewrite !drop_to_skip by exact E. reflexivity.
+Qed.
+
+Lemma no_uarg_unmarked fr pr below y : frame_ok fr pr below -> pargs pr = false -> ~ In (UArg y) (fund fr).
+Proof. intros K Hp Hin. pose proof (K_arg _ _ _ K y Hin) as H. rewrite (K_mark _ _ _ K Hp) in H. destruct H. Qed.
